@@ -43,9 +43,9 @@ use qrecovery::journal::{ArcRcvdJournal, ArcSentJournal};
 
 use crate::common::{catch, Opts, Rng, Sink};
 
-const OP_CAP_MS: u64 = 6000;
+const OP_CAP_MS: u64 = 10000;
 /// monitor bounds: independent of every numeric field of the hostile frame (histories hold < 100 elements)
-const TIME_BOUND_MS: u64 = 1500;
+const TIME_BOUND_MS: u64 = 4000;
 const MEM_BOUND_KB: u64 = 48 * 1024;
 const WORKER_AS_KB: u64 = 3 * 1024 * 1024;
 
@@ -411,7 +411,7 @@ impl Pool {
         let c0 = cpu_ms(Some(p.child.id()));
         let mut r = p.rx.recv_timeout(Duration::from_millis(OP_CAP_MS));
         let mut rounds = 0;
-        while matches!(r, Err(RecvTimeoutError::Timeout)) && cpu_ms(Some(p.child.id())).saturating_sub(c0) < OP_CAP_MS / 2 && rounds < 20 {
+        while matches!(r, Err(RecvTimeoutError::Timeout)) && cpu_ms(Some(p.child.id())).saturating_sub(c0) < OP_CAP_MS * 4 / 5 && rounds < 12 {
             r = p.rx.recv_timeout(Duration::from_millis(OP_CAP_MS));
             rounds += 1;
         }
@@ -484,7 +484,7 @@ impl<'a> Ctx<'a> {
             }
             Ans::Timeout => {
                 *self.strikes.entry(class.to_string()).or_insert(0) += 1;
-                self.sink.monitor_fail(&format!("timeout:{}", class), &format!("`{}` did not finish within {} ms of wall time / {} ms of CPU", op, OP_CAP_MS, OP_CAP_MS / 2));
+                self.sink.monitor_fail(&format!("timeout:{}", class), &format!("`{}` did not finish within {} ms of wall time / {} ms of CPU", op, OP_CAP_MS, OP_CAP_MS * 4 / 5));
                 self.dead = true;
                 "TIMEOUT".into()
             }
@@ -597,7 +597,7 @@ fn run_ack(o: &Opts) {
     let restarts = c.pool.restarts;
     c.pool.kill();
     sink.note("worker_restarts", serde_json::json!(restarts));
-    sink.finish(&o.stats, "C04a: 0..60 packets sent (sent journal + qcongestion), a few packets received, then 1..3 ACK frames: benign runs / everything, first_range > largest, gap underflow, largest >= next pn (with first_range = largest or small), all fields from the boundary set {0,1,63,64,2^14+-1,2^30+-1,2^31,2^62-2,2^62-1,state+-1} + uniform 62-bit; real dispatcher order replayed in a worker process with RLIMIT_AS and a 6 s cap per operation; non-trivial = an ACK accepted; distinct by transcript hash");
+    sink.finish(&o.stats, "C04a: 0..60 packets sent (sent journal + qcongestion), a few packets received, then 1..3 ACK frames: benign runs / everything, first_range > largest, gap underflow, largest >= next pn (with first_range = largest or small), all fields from the boundary set {0,1,63,64,2^14+-1,2^30+-1,2^31,2^62-2,2^62-1,state+-1} + uniform 62-bit; real dispatcher order replayed in a worker process with RLIMIT_AS and a 10 s wall (8 s CPU) cap per operation; non-trivial = an ACK accepted; distinct by transcript hash");
 }
 
 fn run_pn(o: &Opts) {
@@ -698,7 +698,7 @@ fn run_cid(o: &Opts) {
     let restarts = c.pool.restarts;
     c.pool.kill();
     sink.note("worker_restarts", serde_json::json!(restarts));
-    sink.finish(&o.stats, "C04c: (a) ArcRemoteCids with limit 2..8, 0..limit-1 ids delivered in order, then 1..2 NEW_CONNECTION_ID frames with seq in {next, next+1, next+limit, next+4095..next+4098, 2^25, boundary set, uniform 62-bit} and retire_prior_to in {0, seq, seq-1, seq-limit, seq-limit-1, random}; (b) ArcLocalCids: set_limit(n) for n in {0,1,2,3,8,63,64,65,2^14,2^18,2^30,2^62-1}, then 1..3 RETIRE_CONNECTION_ID for issued / unissued / boundary numbers; worker process with RLIMIT_AS and a 6 s cap; non-trivial = an id accepted / ids issued; distinct by transcript hash");
+    sink.finish(&o.stats, "C04c: (a) ArcRemoteCids with limit 2..8, 0..limit-1 ids delivered in order, then 1..2 NEW_CONNECTION_ID frames with seq in {next, next+1, next+limit, next+4095..next+4098, 2^25, boundary set, uniform 62-bit} and retire_prior_to in {0, seq, seq-1, seq-limit, seq-limit-1, random}; (b) ArcLocalCids: set_limit(n) for n in {0,1,2,3,8,63,64,65,2^14,2^18,2^30,2^62-1}, then 1..3 RETIRE_CONNECTION_ID for issued / unissued / boundary numbers; worker process with RLIMIT_AS and a 10 s cap; non-trivial = an id accepted / ids issued; distinct by transcript hash");
 }
 
 pub const RUNS: &[(&str, fn(&Opts))] = &[("C04a", run_ack), ("C04p", run_pn), ("C04c", run_cid), ("C04w", worker)];
